@@ -16,6 +16,7 @@ A spec is a JSON list of items
    "params": [["N","Int"],["max_parts","Int"]],  free names of the expression, with Lean types
    "ret": "Int",                               Lean type of the result
    "rename": {"self.N": "N", "mpi.size": "size"}  optional: dotted names -> parameter
+   "rename_expr": {"np.sum(self.x)": "S"}       optional: whole sub-expressions (ast.unparse text) -> parameter
   }
 
 and the generated file contains, for each item, the source text as a comment
@@ -130,9 +131,15 @@ class Tr:
     def __init__(self, item):
         self.types = {p: t for p, t in item["params"]}
         self.rename = item.get("rename", {})
+        # optional: whole sub-expressions (their `ast.unparse` text) -> parameter
+        self.rename_expr = item.get("rename_expr", {})
 
     # returns (lean_text, type) with type in {"Int", "Rat", "Prop"}
     def tr(self, n):
+        if self.rename_expr and isinstance(n, ast.expr):
+            d3 = self.rename_expr.get(ast.unparse(n))
+            if d3 is not None and d3 in self.types:
+                return d3, ("Rat" if self.types[d3] == "Rat" else "Int")
         d = dotted(n)
         if d is not None:
             d2 = self.rename.get(d, d)
